@@ -18,4 +18,21 @@ MUTANTS = [
       find='        self.scoring.xclip_prefix = clip_penalties[0];\n        self.scoring.xclip_suffix = clip_penalties[1];\n',
       replace='        self.scoring.xclip_suffix = clip_penalties[1];\n        self.scoring.xclip_prefix = clip_penalties[0];\n',
       count=3, which=0, expect_silent=True),
+ # ---- C01 RI-1
+ dict(id='c01-sn-clear-dropped', prop='C01', file='src/alignment/pairwise/mod.rs',
+      find='                self.Sn.clear();\n', replace='', expect='first-touch-is-reset|self.Sn'),
+ dict(id='c01-lx-reset-in-second-iter', prop='C01', file='src/alignment/pairwise/mod.rs',
+      find='                self.Lx.clear();\n                self.Lx.extend(repeat(0usize).take(n + 1));\n',
+      replace='', expect='first-touch-is-reset|self.Lx'),
+ dict(id='c01-d-clear-dropped', prop='C01', file='src/alignment/pairwise/mod.rs',
+      find='            self.D[k].clear();\n', replace='', expect='first-touch-is-reset|self.D[0]'),
+ dict(id='c01-tb-matrix-clear-dropped', prop='C01', file='src/alignment/pairwise/mod.rs',
+      find='        self.matrix.clear();\n', replace='', expect='first-touch-is-reset|self.traceback.matrix'),
+ dict(id='c01-clear-reordered-ok', prop='C01', file='src/alignment/pairwise/mod.rs',
+      find='            self.I[k].clear();\n            self.D[k].clear();\n',
+      replace='            self.D[k].clear();\n            self.I[k].clear();\n', expect_silent=True),
+ dict(id='c01-guard-k1-lx', prop='C01', file='src/alignment/pairwise/mod.rs',
+      find='            if k == 0 {\n                let mut tb = TracebackCell::new();\n                tb.set_all(TB_START);\n                self.traceback.set(0, 0, tb);\n                self.Lx.clear();',
+      replace='            if k == 0 {\n                let mut tb = TracebackCell::new();\n                tb.set_all(TB_START);\n                self.traceback.set(0, 0, tb);\n            }\n            if k == 1 {\n                self.Lx.clear();',
+      expect='first-touch-is-reset|self.Lx'),
 ]
